@@ -70,6 +70,8 @@ def shards(tier, seed):
     out.append({"name": "ctor-chords", "kind": "ctor-chords", "weight": 5, "acc": 1 if tier == "quick" else 2})
     out.append({"name": "ctor-intervals", "kind": "ctor-intervals", "weight": 3})
     out.append({"name": "ctor-progressions", "kind": "ctor-prog", "weight": 4})
+    # (without the in-situ monitors: half a million pair tests under them would take half a minute)
+    out.append({"name": "large-container", "kind": "large", "bare": True, "weight": 6})
     if tier == "thorough":
         out.append({"name": "repo-tests-under-monitors", "kind": "repotests", "mode": "record",
                     "tests": ["tests/unit/containers"], "weight": 3})
@@ -348,6 +350,32 @@ def run(shard, ctx):
                               {"start": n, "shorthand": sh, "up": up}, exp, repr(nc), mechanism="ctor:interval")
                     ctx.case(("ctor-interval", n, sh, up))
         ctx.sample({"from_interval_shorthand('C','5',False)": repr(NoteContainer().from_interval_shorthand("C", "5", False))})
+    elif kind == "large":
+        # one very large container (1 020 notes: C, E and G in 340 octaves) under the interpreter's default recursion limit:
+        # length, order and the predicates still follow the content
+        import sys
+        big, want = NoteContainer(), []
+        for o in range(340):
+            for nm in ("C", "E", "G"):
+                big.add_note(Note(nm, o))
+                want.append(pitch(nm, o))
+        got = [int(x) for x in big.notes]
+        ctx.check("history: the container holds exactly the pitches the set model predicts, low to high, none twice", got == sorted(want),
+                  {"history": "C, E, G added in octaves 0..339"}, len(want), len(got), mechanism="content:large")
+        old_limit = sys.getrecursionlimit()
+        sys.setrecursionlimit(1000)
+        try:
+            for (fname, exp) in (("is_consonant", True), ("is_perfect_consonant", False)):
+                st, v = ctx.call(getattr(big, fname))
+                ctx.check("queries: consonance holds exactly when every pair is consonant" if fname == "is_consonant" else
+                          "queries: dissonant is the negation of consonant" if fname == "is_dissonant" else
+                          "queries: perfect consonance holds exactly when every pair is perfectly consonant" if fname == "is_perfect_consonant" else
+                          "queries: imperfect consonance holds exactly when every pair is imperfectly consonant",
+                          st == "ok" and bool(v) is exp, {"content": "C, E, G in octaves 0..339", "predicate": fname}, exp, repr(v)[:120],
+                          mechanism="pred:large-container")
+        finally:
+            sys.setrecursionlimit(old_limit)
+        ctx.case(("large-container",))
     elif kind == "ctor-prog":
         for (kname, _s, _m) in T.KEYS:
             for nu in ["I", "II", "III", "IV", "V", "VI", "VII"]:
